@@ -230,6 +230,24 @@ func BuildMappingValues(m rm.Mapping) (*data.Mapping, error) {
 	return data.ValuesToMapping(vals)
 }
 
+// HandsOverUnsorted: a caller can hold a Mapping whose pairs are NOT in key order (the parser keeps
+// wire order). Model mappings that are unsorted and free of duplicate keys are handed to the
+// LeaseSet2 constructor that way, so that it also sees option mappings no sorting converter
+// would give it.
+func HandsOverUnsorted(m rm.Mapping) bool {
+	return m.Raw == nil && len(m.Pairs) > 1 && !m.Sorted() && !m.HasDuplicateKeys()
+}
+
+// OptionsArg builds the options argument of a constructor that takes a data.Mapping.
+func OptionsArg(m rm.Mapping) (*data.Mapping, error) {
+	if HandsOverUnsorted(m) {
+		if pm, rem, errs := data.ReadMapping(m.Encode()); len(errs) == 0 && len(rem) == 0 {
+			return &pm, nil
+		}
+	}
+	return BuildMappingValues(m)
+}
+
 func BuildRouterAddress(a rm.RouterAddress) (*router_address.RouterAddress, error) {
 	return router_address.NewRouterAddress(a.Cost, time.Time{}, string(a.Style), MappingToGo(a.Options))
 }
@@ -320,7 +338,7 @@ func BuildLeaseSet2(l rm.LeaseSet2, signingKey any) (*lease_set2.LeaseSet2, bool
 		}
 		off = &o
 	}
-	opts, err := BuildMappingValues(l.Options)
+	opts, err := OptionsArg(l.Options)
 	if err != nil {
 		return nil, true, err
 	}
